@@ -166,6 +166,14 @@ class SX:
         return fn(*args)
 
     @staticmethod
+    def dyn(fn, a):
+        if isinstance(a, Sym):
+            for nm in ('str', 'int', 'bool', 'repr', 'len'):
+                if fn is getattr(builtins, nm):
+                    return SX.b(fn, nm, a)
+        return fn(a)
+
+    @staticmethod
     def b_hash(v):
         raise SxUnsupported('hash() of symbolic value')
 
@@ -658,6 +666,10 @@ class Rewrite(ast.NodeTransformer):
                             [f.value, ast.Constant(f.attr), ast.Tuple(node.args, ast.Load()),
                              ast.Dict([ast.Constant(k.arg) for k in node.keywords], [k.value for k in node.keywords])],
                             [])
+        if (not isinstance(f, ast.Name) and len(node.args) == 1 and not node.keywords
+                and not isinstance(node.args[0], ast.Starred)):
+            # a builtin reached through a variable or attribute, e.g. `self.dtype(value)` with dtype = str
+            return ast.Call(_sx('dyn'), [f, node.args[0]], [])
         return node
 
     def visit_Subscript(self, node):
